@@ -456,6 +456,19 @@ func spellingOfReturns(cal *ssa.Function, idx int, depth int) string {
 	return ""
 }
 
+// isTypeRecogniser: func(t types.Type, …) bool — the role of isDisk, isLockRef, … whose answer
+// selects a library model for every use of the type.
+func isTypeRecogniser(f *ssa.Function) bool {
+	sig := f.Signature
+	if sig.Recv() != nil || sig.Params().Len() == 0 || sig.Results().Len() != 1 {
+		return false
+	}
+	if b, ok := sig.Results().At(0).Type().Underlying().(*types.Basic); !ok || b.Kind() != types.Bool {
+		return false
+	}
+	return types.TypeString(sig.Params().At(0).Type(), nil) == "go/types.Type"
+}
+
 // checkR02d: spelling-based recognition, one obligation per (class, literal) — independent of
 // which function does the comparison, so moving a recogniser does not change the verdict.
 func checkR02d(p *Prog, r *Report) {
@@ -506,6 +519,9 @@ func checkR02d(p *Prog, r *Report) {
 						} else {
 							c = "package-or-type name"
 						}
+					}
+					if isTypeRecogniser(f) {
+						c += ", deciding a predicate over types.Type"
 					}
 					add(c, lit, ls.Pos, ls.Fn)
 				}
